@@ -146,15 +146,16 @@ theorem step_AllQuiet (cfg : Cfg) (hq : QuietSkeleton cfg.ops) (s : St) (ev : Ev
       · exact h
       · next g rest htodo =>
         have hq0 := h i p0 hp0
-        refine upd _ i (settle (raise { p0 with todo := rest } s.fs g).1) rfl (Quiet_settle _ ?_)
+        refine upd _ i (settle { (raise { p0 with todo := rest } s.fs g).1 with faulted := true }) rfl (Quiet_settle _ ?_)
         intro hf
         have hfl : (raise { p0 with todo := rest } s.fs g).1.flag = p0.flag := by unfold raise; rfl
         obtain ⟨hpure, hw⟩ := hq0 (hfl ▸ hf)
         have := raise_quiet { p0 with todo := rest } s.fs g hw
         refine ⟨?_, this.2.1⟩
         intro g' hg'
-        rw [this.2.2.2] at hg'
-        exact hpure g' (by rw [htodo]; exact List.mem_cons_of_mem _ hg')
+        have hg'' : g' ∈ (raise { p0 with todo := rest } s.fs g).1.todo := hg'
+        rw [this.2.2.2] at hg''
+        exact hpure g' (by rw [htodo]; exact List.mem_cons_of_mem _ hg'')
   | kill i =>
     simp only [step]
     split
